@@ -16,6 +16,14 @@ open PonyVerif.Model.Finished
 theorem C32_close_dead (strict hadConnection : Bool) (w : World) : (close strict hadConnection w).alive = false := by
   unfold close; split <;> rfl
 
+/-- every way a session can end — also a COMMIT that fails at the exit, or a flush that fails inside the exit's commit — goes through
+    `SessionCache.close`: the result is the same detached world and the session is over -/
+theorem C32_end_is_close (how : How) (inTransaction strict hadConnection : Bool) (w : World) :
+    endSession how inTransaction strict hadConnection w = close strict hadConnection w ∧
+    (endSession how inTransaction strict hadConnection w).alive = false := by
+  have hd := C32_close_dead strict hadConnection w
+  cases how <;> cases inTransaction <;> simp [endSession, cacheCommit, hd]
+
 /-- after a strict session that had a connection, no object holds any value -/
 theorem C32_close_strict (w : World) (o : Obj) (h : o ∈ (close true true w).objs) :
     o.vals = none ∧ o.dbvals = none ∧ o.hasCache = false := by
